@@ -40,8 +40,10 @@ def SockOK (sock : Option Nat) (nc : Nat) : Prop := sock = some 0 ∨ (sock = no
 
 /-- where the holder is between taking and giving back the MANAGER lock, and what the transport looks like there -/
 inductive IStage (sh : Shared) (t : Nat) (th : Thread) : Prop where
-  | tid (k : Nat) (h : th.ops = .tid :: .connect :: .send1 :: .send2 :: tailOps k) (q : Quiet sh)
-  | connect (k : Nat) (h : th.ops = .connect :: .send1 :: .send2 :: tailOps k) (q : Quiet sh) (hf : th.full = false)
+  | tid (k : Nat) (h : th.ops = .tid :: .connect :: .flush :: .send1 :: .send2 :: tailOps k) (q : Quiet sh)
+  | connect (k : Nat) (h : th.ops = .connect :: .flush :: .send1 :: .send2 :: tailOps k) (q : Quiet sh) (hf : th.full = false)
+  | flush (k : Nat) (h : th.ops = .flush :: .send1 :: .send2 :: tailOps k) (q : Quiet sh) (hf : th.full = false)
+      (hfr : th.frame = frameOf th.tidv th.cur)
   | send1 (k : Nat) (h : th.ops = .send1 :: .send2 :: tailOps k) (q : Quiet sh) (hf : th.full = false)
       (hfr : th.frame = frameOf th.tidv th.cur) (hc : th.sconn = 0)
   | send2 (k : Nat) (h : th.ops = .send2 :: tailOps k) (hf : th.full = false)
@@ -59,24 +61,28 @@ inductive IStage (sh : Shared) (t : Nat) (th : Thread) : Prop where
 /-- where the holder of the CLIENT lock is inside `BaseModbusClient.execute`; `m` = state of the manager lock -/
 inductive Stage (sh : Shared) (sock : Option Nat) (nc : Nat) (m : Option (Nat × Nat)) (t : Nat) (th : Thread) :
     Prop where
-  | pre (k : Nat) (h : th.ops = .preconnect :: .acquire :: .tid :: .connect :: .send1 :: .send2 :: tailOps k)
+  | pre (k : Nat) (h : th.ops = .preconnect :: .acquire :: .tid :: .connect :: .flush :: .send1 :: .send2 :: tailOps k)
       (q : Quiet sh) (hs : SockOK sock nc) (hm : m = none)
-  | opening (k : Nat) (h : th.ops = .open :: .acquire :: .tid :: .connect :: .send1 :: .send2 :: tailOps k)
+  | opening (k : Nat) (h : th.ops = .open :: .acquire :: .tid :: .connect :: .flush :: .send1 :: .send2 :: tailOps k)
       (q : Quiet sh) (hs : sock = none ∧ nc = 0) (hm : m = none)
-  | acq (k : Nat) (h : th.ops = .acquire :: .tid :: .connect :: .send1 :: .send2 :: tailOps k)
+  | acq (k : Nat) (h : th.ops = .acquire :: .tid :: .connect :: .flush :: .send1 :: .send2 :: tailOps k)
       (q : Quiet sh) (hs : sock = some 0) (hm : m = none)
   | inner (hs : sock = some 0) (hm : m = some (t, 1)) (st : IStage sh t th)
-  | crel (h : th.ops = [.crelease]) (q : Quiet sh) (hs : sock = some 0) (hm : m = none)
+  | crel (h : th.ops = [.crelease]) (q : Quiet sh) (hs : SockOK sock nc) (hm : m = none)
 
 /-- not inside `execute`: between calls, or about to take the client lock -/
 def Outside (th : Thread) : Prop :=
   th.ops = [] ∨ ∃ k, th.ops =
-    .cacquire :: .preconnect :: .acquire :: .tid :: .connect :: .send1 :: .send2 :: tailOps k
+    .cacquire :: .preconnect :: .acquire :: .tid :: .connect :: .flush :: .send1 :: .send2 :: tailOps k
 
-/-- per-thread bookkeeping: every result so far is the reply to its own request, and
+/-- what a caller may be handed: the reply to its own request, or — when a connection attempt was refused — the
+    `ConnectionException` raised by `BaseModbusClient.execute` -/
+abbrev Fate (cok : Nat → Bool) (x : Req × Nat × Result) : Prop := Spec.Answered cok x
+
+/-- per-thread bookkeeping: every result so far is the caller's own reply (or the connection exception), and
     results ++ request in progress ++ requests not started = the requests the thread was given -/
-structure ThreadOK (reqs : Nat → List Req) (t : Nat) (th : Thread) : Prop where
-  served : ∀ x ∈ th.results, Spec.OwnReply x
+structure ThreadOK (reqs : Nat → List Req) (cok : Nat → Bool) (t : Nat) (th : Thread) : Prop where
+  served : ∀ x ∈ th.results, Fate cok x
   conserve : Conserved reqs t th
 
 structure Inv (reqs : Nat → List Req) (s : State) : Prop where
@@ -85,7 +91,7 @@ structure Inv (reqs : Nat → List Req) (s : State) : Prop where
     Quiet s.shared ∧ SockOK s.sock s.nextConn ∧ s.locks 1 = none ∧ ∀ t, Outside (s.threads t)
   held : ∀ h d, s.locks 0 = some (h, d) →
     d = 1 ∧ Stage s.shared s.sock s.nextConn (s.locks 1) h (s.threads h) ∧ ∀ t, t ≠ h → Outside (s.threads t)
-  ok : ∀ t, ThreadOK reqs t (s.threads t)
+  ok : ∀ t, ThreadOK reqs s.connOk t (s.threads t)
 
 theorem IStage.head {sh : Shared} {t : Nat} {th : Thread} (h : IStage sh t th) :
     ∃ op l, th.ops = op :: l ∧ op ≠ .acquire ∧ op ≠ .cacquire := by
@@ -95,6 +101,7 @@ theorem IStage.head {sh : Shared} {t : Nat} {th : Thread} (h : IStage sh t th) :
     exact ⟨op, l, by rw [h, e], h3, h4⟩
   | tid k h => exact ⟨_, _, h, by simp, by simp⟩
   | connect k h => exact ⟨_, _, h, by simp, by simp⟩
+  | flush k h => exact ⟨_, _, h, by simp, by simp⟩
   | send1 k h => exact ⟨_, _, h, by simp, by simp⟩
   | send2 k h => exact ⟨_, _, h, by simp, by simp⟩
   | recv2 h => exact ⟨_, _, h, by simp, by simp⟩
@@ -123,9 +130,10 @@ theorem Stage.not_outside {sh : Shared} {sock : Option Nat} {nc : Nat} {m : Opti
   | inl h0 => rw [h0] at ho; cases ho
   | inr hk => obtain ⟨k, hk⟩ := hk; rw [hk] at ho; cases ho; exact hne rfl
 
-theorem ThreadOK.congr {reqs : Nat → List Req} {t : Nat} {th th' : Thread} (h : ThreadOK reqs t th)
+theorem ThreadOK.congr {reqs : Nat → List Req} {cok : Nat → Bool} {t : Nat} {th th' : Thread}
+    (h : ThreadOK reqs cok t th)
     (h1 : th'.results = th.results) (h2 : th'.todo = th.todo) (h3 : curPending th' = curPending th) :
-    ThreadOK reqs t th' :=
+    ThreadOK reqs cok t th' :=
   ⟨by rw [h1]; exact h.served, h.conserve.congr h1 h2 h3⟩
 
 variable {reqs : Nat → List Req}
@@ -134,7 +142,8 @@ variable {reqs : Nat → List Req}
 theorem inv_holder_step {s s' : State} {h : Nat} (hi : Inv reqs s) (hl : s.locks 0 = some (h, 1))
     (hoth : ∀ u, u ≠ h → s'.threads u = s.threads u) (hl0 : s'.locks 0 = some (h, 1)) (hn : s'.noResp = [])
     (hst : Stage s'.shared s'.sock s'.nextConn (s'.locks 1) h (s'.threads h))
-    (hok : ThreadOK reqs h (s'.threads h)) : Inv reqs s' := by
+    (hok : ThreadOK reqs s.connOk h (s'.threads h))
+    (hck : s'.connOk = s.connOk := by first | rfl | exact stepOp_connOk _ _ _ _ _ _) : Inv reqs s' := by
   obtain ⟨_, _, hout⟩ := hi.held h 1 hl
   refine ⟨hn, ?_, ?_, ?_⟩
   · intro hf; rw [hl0] at hf; cases hf
@@ -143,6 +152,7 @@ theorem inv_holder_step {s s' : State} {h : Nat} (hi : Inv reqs s) (hl : s.locks
     cases hd
     exact ⟨rfl, hst, fun t ht => by rw [hoth t ht]; exact hout t ht⟩
   · intro t
+    rw [hck]
     by_cases ht : t = h
     · subst ht; exact hok
     · rw [hoth t ht]; exact hi.ok t
@@ -152,7 +162,8 @@ theorem inv_outsider_step {s s' : State} {t : Nat} (hi : Inv reqs s)
     (hnot : ∀ h d, s.locks 0 = some (h, d) → t ≠ h)
     (hoth : ∀ u, u ≠ t → s'.threads u = s.threads u) (hlocks : s'.locks = s.locks) (hn : s'.noResp = s.noResp)
     (hso : s'.sock = s.sock) (hnc : s'.nextConn = s.nextConn) (hsh : s'.shared = s.shared)
-    (hout : Outside (s'.threads t)) (hok : ThreadOK reqs t (s'.threads t)) : Inv reqs s' := by
+    (hout : Outside (s'.threads t)) (hok : ThreadOK reqs s.connOk t (s'.threads t))
+    (hck : s'.connOk = s.connOk := by first | rfl | exact stepOp_connOk _ _ _ _ _ _) : Inv reqs s' := by
   refine ⟨by rw [hn]; exact hi.noResp, ?_, ?_, ?_⟩
   · intro hf
     rw [hlocks] at hf
@@ -172,6 +183,7 @@ theorem inv_outsider_step {s s' : State} {t : Nat} (hi : Inv reqs s)
       · subst hut; exact hout
       · rw [hoth u hut]; exact ho u hu
   · intro u
+    rw [hck]
     by_cases hu : u = t
     · subst hu; exact hok
     · rw [hoth u hu]; exact hi.ok u
@@ -181,7 +193,8 @@ theorem inv_cacquire {s s' : State} {t : Nat} (hi : Inv reqs s) (hf : s.locks 0 
     (hoth : ∀ u, u ≠ t → s'.threads u = s.threads u) (hl0 : s'.locks 0 = some (t, 1))
     (hn : s'.noResp = s.noResp)
     (hst : Stage s'.shared s'.sock s'.nextConn (s'.locks 1) t (s'.threads t))
-    (hok : ThreadOK reqs t (s'.threads t)) : Inv reqs s' := by
+    (hok : ThreadOK reqs s.connOk t (s'.threads t))
+    (hck : s'.connOk = s.connOk := by first | rfl | exact stepOp_connOk _ _ _ _ _ _) : Inv reqs s' := by
   obtain ⟨_, _, _, ho⟩ := hi.free hf
   refine ⟨by rw [hn]; exact hi.noResp, ?_, ?_, ?_⟩
   · intro h; rw [hl0] at h; cases h
@@ -190,6 +203,7 @@ theorem inv_cacquire {s s' : State} {t : Nat} (hi : Inv reqs s) (hf : s.locks 0 
     cases hl
     exact ⟨rfl, hst, fun u hu => by rw [hoth u hu]; exact ho u⟩
   · intro u
+    rw [hck]
     by_cases hu : u = t
     · subst hu; exact hok
     · rw [hoth u hu]; exact hi.ok u
@@ -198,7 +212,8 @@ theorem inv_cacquire {s s' : State} {t : Nat} (hi : Inv reqs s) (hf : s.locks 0 
 theorem inv_crelease {s s' : State} {h : Nat} (hi : Inv reqs s) (hl : s.locks 0 = some (h, 1))
     (hoth : ∀ u, u ≠ h → s'.threads u = s.threads u) (hl0 : s'.locks 0 = none) (hn : s'.noResp = s.noResp)
     (q : Quiet s'.shared) (hs : SockOK s'.sock s'.nextConn) (hm : s'.locks 1 = none)
-    (hout : Outside (s'.threads h)) (hok : ThreadOK reqs h (s'.threads h)) : Inv reqs s' := by
+    (hout : Outside (s'.threads h)) (hok : ThreadOK reqs s.connOk h (s'.threads h))
+    (hck : s'.connOk = s.connOk := by first | rfl | exact stepOp_connOk _ _ _ _ _ _) : Inv reqs s' := by
   obtain ⟨_, _, ho⟩ := hi.held h 1 hl
   refine ⟨by rw [hn]; exact hi.noResp, ?_, ?_, ?_⟩
   · intro _
@@ -208,16 +223,23 @@ theorem inv_crelease {s s' : State} {h : Nat} (hi : Inv reqs s) (hl : s.locks 0 
     · rw [hoth u hu]; exact ho u hu
   · intro h' d hl'; rw [hl0] at hl'; cases hl'
   · intro u
+    rw [hck]
     by_cases hu : u = h
     · subst hu; exact hok
     · rw [hoth u hu]; exact hi.ok u
+
+theorem filter_crelease_tail (k : Nat) : (tailOps k).filter (· == Op.crelease) = [.crelease] := by
+  induction k with
+  | zero => rfl
+  | succ k ih => rw [tailOps_succ, List.filter_cons_of_neg (by decide)]; exact ih
 
 /-- the holder moves between taking and giving back the manager lock (no lock changes) -/
 theorem inv_inner_step {s s' : State} {h : Nat} (hi : Inv reqs s) (hl : s.locks 0 = some (h, 1))
     (hoth : ∀ u, u ≠ h → s'.threads u = s.threads u) (hlocks : s'.locks = s.locks) (hn : s'.noResp = [])
     (hso : s'.sock = some 0) (hm : s.locks 1 = some (h, 1)) (ist : IStage s'.shared h (s'.threads h))
-    (hok : ThreadOK reqs h (s'.threads h)) : Inv reqs s' :=
-  inv_holder_step hi hl hoth (by rw [hlocks]; exact hl) hn (Stage.inner hso (by rw [hlocks]; exact hm) ist) hok
+    (hok : ThreadOK reqs s.connOk h (s'.threads h))
+    (hck : s'.connOk = s.connOk := by first | rfl | exact stepOp_connOk _ _ _ _ _ _) : Inv reqs s' :=
+  inv_holder_step hi hl hoth (by rw [hlocks]; exact hl) hn (Stage.inner hso (by rw [hlocks]; exact hm) ist) hok hck
 
 theorem inv_holder_op {s : State} {t : Nat} {op : Op} {ops : List Op} (hi : Inv reqs s)
     (hl : s.locks 0 = some (t, 1)) (hst : Stage s.shared s.sock s.nextConn (s.locks 1) t (s.threads t))
@@ -259,11 +281,40 @@ theorem inv_holder_op {s : State} {t : Nat} {op : Op} {ops : List Op} (hi : Inv 
             (by simp [stepOp, hsock, upd_same]))
   | opening k h q hso hm =>
     rw [h] at hops; cases hops
-    refine inv_holder_step hi hl hoth hl hnr (Stage.acq k ?_ q ?_ hm) ?_
-    · simp [stepOp, upd_same]
-    · simp [stepOp, hso.2]
-    · exact hok.congr (by simp [stepOp, upd_same]) (by simp [stepOp, upd_same])
-        (curPending_congr' (by simp [stepOp, upd_same]) (by rw [h]; simp) (by simp [stepOp, upd_same]))
+    cases hc : s.connOk s.attempts with
+    | true =>
+      refine inv_holder_step hi hl hoth (by simpa [stepOp, hc] using hl) (by simpa [stepOp, hc] using hnr)
+        (Stage.acq k ?_ ?_ ?_ ?_) ?_
+      · simp [stepOp, hc, upd_same]
+      · simpa [stepOp, hc, State.shared] using q
+      · simp [stepOp, hc, hso.2]
+      · simpa [stepOp, hc] using hm
+      · exact hok.congr (by simp [stepOp, hc, upd_same]) (by simp [stepOp, hc, upd_same])
+          (curPending_congr' (by simp [stepOp, hc, upd_same]) (by rw [h]; simp) (by simp [stepOp, hc, upd_same]))
+    | false =>
+      -- refused: ConnectionException leaves `execute`, the `with` gives the client lock back
+      have hfil : ((Op.acquire :: .tid :: .connect :: .flush :: .send1 :: .send2 :: tailOps k).filter
+          (· == .crelease)) = [.crelease] := by
+        simp [List.filter_cons, filter_crelease_tail]
+      refine inv_holder_step hi hl hoth (by simpa [stepOp, hc] using hl) (by simpa [stepOp, hc] using hnr)
+        (Stage.crel ?_ ?_ (Or.inr ⟨?_, ?_⟩) ?_) ⟨?_, ?_⟩
+      · simp [stepOp, hc, upd_same, hfil]
+      · simpa [stepOp, hc, State.shared] using q
+      · simp [stepOp, hc]
+      · simpa [stepOp, hc] using hso.2
+      · simpa [stepOp, hc] using hm
+      · intro x hx
+        have hx' : x ∈ (s.threads t).results ++ [((s.threads t).cur, (s.threads t).tidv, .raised .modbusExc)] := by
+          simpa [stepOp, hc, upd_same] using hx
+        rw [List.mem_append] at hx'
+        cases hx' with
+        | inl hx' => exact hok.served x hx'
+        | inr hx' =>
+          rw [List.mem_singleton] at hx'
+          exact Or.inr ⟨by rw [hx'], s.attempts, hc⟩
+      · exact hok.conserve.finish (curPending_of (by rw [h]; simp)) ((s.threads t).tidv, .raised .modbusExc)
+          (by simp [stepOp, hc, upd_same]) (by simp [stepOp, hc, upd_same])
+          (by simp [stepOp, hc, upd_same, hfil])
   | acq k h q hs hm =>
     rw [h] at hops; cases hops
     have hm' : s.locks 1 = none := hm
@@ -281,7 +332,7 @@ theorem inv_holder_op {s : State} {t : Nat} {op : Op} {ops : List Op} (hi : Inv 
   | crel h q hs hm =>
     rw [h] at hops; cases hops
     have hm' : s.locks 1 = none := hm
-    refine inv_crelease hi hl hoth ?_ rfl q (Or.inl hs) ?_ (Or.inl ?_) ?_
+    refine inv_crelease hi hl hoth ?_ rfl q hs ?_ (Or.inl ?_) ?_
     · simp [stepOp, lockRelease, clientKey, hl, upd]
     · simpa [stepOp, lockRelease, clientKey, hl, upd] using hm'
     · simp [stepOp, upd_same]
@@ -299,11 +350,25 @@ theorem inv_holder_op {s : State} {t : Nat} {op : Op} {ops : List Op} (hi : Inv 
     | connect k h q hf =>
       rw [h] at hops; cases hops
       refine inv_inner_step hi hl hoth (by simp [stepOp, hs]) (by simpa [stepOp, hs] using hnr)
-        (by simpa [stepOp, hs] using hs) hm (IStage.send1 k ?_ ?_ ?_ ?_ ?_) ?_
+        (by simpa [stepOp, hs] using hs) hm (IStage.flush k ?_ ?_ ?_ ?_) ?_
       · simp [stepOp, hs, upd_same]
       · simpa [stepOp, hs, State.shared] using q
       · simpa [stepOp, hs, upd_same] using hf
       · simp [stepOp, hs, upd_same]
+      · exact hok.congr (by simp [stepOp, hs, upd_same]) (by simp [stepOp, hs, upd_same])
+          (curPending_congr' (by simp [stepOp, hs, upd_same]) (by rw [h]; simp) (by simp [stepOp, hs, upd_same]))
+    | flush k h q hf hfr =>
+      rw [h] at hops; cases hops
+      have hs0 : s.stream 0 = [] := q.2.1
+      refine inv_inner_step hi hl hoth (by simp [stepOp, hs]) (by simpa [stepOp, hs] using hnr)
+        (by simpa [stepOp, hs] using hs) hm (IStage.send1 k ?_ ⟨?_, ?_, ?_, ?_⟩ ?_ ?_ ?_) ?_
+      · simp [stepOp, hs, upd_same]
+      · simpa [stepOp, hs, State.shared] using q.1
+      · simp [stepOp, hs, State.shared, upd_same]
+      · simpa [stepOp, hs, State.shared] using q.2.2.1
+      · simpa [stepOp, hs, State.shared] using q.2.2.2
+      · simpa [stepOp, hs, upd_same] using hf
+      · simpa [stepOp, hs, upd_same] using hfr
       · simp [stepOp, hs, upd_same]
       · exact hok.congr (by simp [stepOp, hs, upd_same]) (by simp [stepOp, hs, upd_same])
           (curPending_congr' (by simp [stepOp, hs, upd_same]) (by rw [h]; simp) (by simp [stepOp, hs, upd_same]))
@@ -399,24 +464,29 @@ theorem inv_holder_op {s : State} {t : Nat} {op : Op} {ops : List Op} (hi : Inv 
       rw [h] at hops; cases hops
       have hb0 : s.buf = [] := q.2.2.1
       have hpr := process_reply (s.threads t).tidv (s.threads t).cur
-      have hcp : curPending (s.threads t) = [(s.threads t).cur] := curPending_of (by rw [h]; simp)
-      refine inv_inner_step hi hl hoth rfl hnr hs hm (IStage.release ?_ ⟨q.1, q.2.1, ?_, q.2.2.2⟩) ⟨?_, ?_⟩
-      · simp [stepOp, upd_same]
-      · show (processResp (s.threads t).cur.unit s.buf (s.threads t).resp).2 = []
+      have hpr' : processResp (s.threads t).cur.unit (s.threads t).tidv s.buf (s.threads t).resp =
+          (.ok (s.threads t).tidv (s.threads t).cur.unit (Spec.expected (s.threads t).cur), []) := by
         rw [hb0, hr, hpr]
+      have hcp : curPending (s.threads t) = [(s.threads t).cur] := curPending_of (by rw [h]; simp)
+      refine inv_inner_step hi hl hoth rfl hnr ?_ hm (IStage.release ?_ ⟨q.1, q.2.1, ?_, q.2.2.2⟩) ⟨?_, ?_⟩
+      · simp only [stepOp, hpr', Result.isOk, if_true]; exact hs
+      · simp [stepOp, upd_same]
+      · show (processResp (s.threads t).cur.unit (s.threads t).tidv s.buf (s.threads t).resp).2 = []
+        rw [hpr']
       · intro x hx
         have hx' : x ∈ (s.threads t).results ++
-            [((s.threads t).cur, (s.threads t).tidv, (processResp (s.threads t).cur.unit s.buf (s.threads t).resp).1)] := by
+            [((s.threads t).cur, (s.threads t).tidv,
+              (processResp (s.threads t).cur.unit (s.threads t).tidv s.buf (s.threads t).resp).1)] := by
           simpa [stepOp, upd_same] using hx
         rw [List.mem_append] at hx'
         cases hx' with
         | inl hx' => exact hok.served x hx'
         | inr hx' =>
           rw [List.mem_singleton] at hx'
-          rw [hx', hb0, hr, hpr]
-          rfl
+          rw [hx', hpr']
+          exact Or.inl rfl
       · exact hok.conserve.finish hcp
-          ((s.threads t).tidv, (processResp (s.threads t).cur.unit s.buf (s.threads t).resp).1)
+          ((s.threads t).tidv, (processResp (s.threads t).cur.unit (s.threads t).tidv s.buf (s.threads t).resp).1)
           (by simp [stepOp, upd_same]) (by simp [stepOp, upd_same]) (by simp [stepOp, upd_same])
     | release h q =>
       rw [h] at hops; cases hops
@@ -426,7 +496,7 @@ theorem inv_holder_op {s : State} {t : Nat} {op : Op} {ops : List Op} (hi : Inv 
       · simpa [stepOp, lockKey] using hnr
       · simp [stepOp, lockKey, upd_same]
       · simpa [stepOp, lockKey, State.shared] using q
-      · simpa [stepOp, lockKey] using hs
+      · exact Or.inl (by simpa [stepOp, lockKey] using hs)
       · simp [stepOp, lockKey, lockRelease, hm', upd]
       · exact hok.congr (by simp [stepOp, lockKey, upd_same]) (by simp [stepOp, lockKey, upd_same])
           (by simp [curPending, h, stepOp, lockKey, upd_same])
@@ -507,13 +577,15 @@ theorem inv_step {s : State} (hi : Inv reqs s) (t : Nat) : Inv reqs (step .whole
           obtain ⟨h, d⟩ := p
           have hne := hnot h d hl
           have e : stepOp .whole s t (s.threads t)
-              (.preconnect :: .acquire :: .tid :: .connect :: .send1 :: .send2 :: tailOps k) .cacquire = s := by
+              (.preconnect :: .acquire :: .tid :: .connect :: .flush :: .send1 :: .send2 :: tailOps k) .cacquire = s := by
             simp [stepOp, clientKey, lockAcquire, hl, Ne.symm hne]
           show Inv reqs (stepOp .whole s t (s.threads t) _ .cacquire)
           rw [e]; exact hi
 
-/-- the initial state satisfies the invariant, whether the client is connected or not -/
-theorem inv_init (reqs : Nat → List Req) (connected : Bool) : Inv reqs (init reqs connected) := by
+/-- the initial state satisfies the invariant, whether the client is connected or not, whatever the fate of the
+    connection attempts to come -/
+theorem inv_init (reqs : Nat → List Req) (connected : Bool) (cok : Nat → Bool) :
+    Inv reqs (init reqs connected cok) := by
   refine ⟨rfl, ?_, ?_, ?_⟩
   · intro _
     refine ⟨⟨rfl, rfl, rfl, rfl⟩, ?_, rfl, fun t => Or.inl rfl⟩
@@ -527,7 +599,7 @@ theorem inv_init (reqs : Nat → List Req) (connected : Bool) : Inv reqs (init r
       have : x ∈ ([] : List (Req × Nat × Result)) := hx
       cases this
     · show ([] : List (Req × Nat × Result)).map (·.1) ++ curPending _ ++ reqs t = reqs t
-      have : curPending ((init reqs connected).threads t) = [] := by simp [curPending, init]
+      have : curPending ((init reqs connected cok).threads t) = [] := by simp [curPending, init]
       rw [this]; rfl
 
 theorem inv_run (reqs : Nat → List Req) {s : State} (hi : Inv reqs s) (sched : List Nat) :
@@ -537,8 +609,8 @@ theorem inv_run (reqs : Nat → List Req) {s : State} (hi : Inv reqs s) (sched :
   | cons t rest ih => exact ih (inv_step hi t)
 
 /-- every reachable state satisfies the invariant -/
-theorem inv_reachable (reqs : Nat → List Req) (connected : Bool) (sched : List Nat) :
-    Inv reqs (runSched .whole (init reqs connected) sched) := inv_run reqs (inv_init reqs connected) sched
+theorem inv_reachable (reqs : Nat → List Req) (connected : Bool) (cok : Nat → Bool) (sched : List Nat) :
+    Inv reqs (runSched .whole (init reqs connected cok) sched) := inv_run reqs (inv_init reqs connected cok) sched
 
 /-! ### no deadlock, fairness -/
 
